@@ -15,9 +15,19 @@ Proof. destruct k; try discriminate; intros _; reflexivity. Qed.
 Theorem paint_event res run_form s :
   out (apply_op res run_form KB [] s) = EPath (gs s) true true false (curpath s) (devctm s) :: out s /\
   out (apply_op res run_form Kfstar [] s) = EPath (gs s) false true true (curpath s) (devctm s) :: out s /\
-  out (apply_op res run_form Ks [] s) = EPath (gs s) true false false (curpath s ++ [SegH]) (devctm s) :: out s /\
+  out (apply_op res run_form Ks [] s) = EPath (gs s) true false false (close_path (curpath s)) (devctm s) :: out s /\
   out (apply_op res run_form Kn [] s) = out s.
 Proof. repeat split. Qed.
+
+(* closing a closed subpath does nothing *)
+Lemma close_path_idem p : close_path (close_path p) = close_path p.
+Proof.
+  unfold close_path. destruct (ends_closed p) eqn:E; [rewrite E; reflexivity|].
+  assert (E2 : ends_closed (p ++ [SegH]) = true) by (unfold ends_closed; rewrite rev_app_distr; reflexivity).
+  rewrite E2. reflexivity.
+Qed.
+Lemma close_path_closed p : ends_closed p = true -> close_path p = p.
+Proof. intros H. unfold close_path. rewrite H. reflexivity. Qed.
 
 (* ---------- shapes carry the flags and the graphics state ------------------------------------- *)
 Lemma paint_single_state g st fi eo c path :
